@@ -8,3 +8,22 @@ import "github.com/openfga/openfga/internal/cachecontroller"
 func (s *Server) VerifCacheController() cachecontroller.CacheController {
 	return s.sharedDatastoreResources.CacheController
 }
+
+// VerifWaitBackground waits for the background iterator drains registered on the shared WaitGroup.
+// Goroutines left over from a cancelled request may still register drains while we wait, which makes
+// sync.WaitGroup.Wait panic ("reused before previous Wait has returned"): retry until a Wait completes.
+func (s *Server) VerifWaitBackground() {
+	for i := 0; i < 1000; i++ {
+		if func() (ok bool) {
+			defer func() {
+				if recover() != nil {
+					ok = false
+				}
+			}()
+			s.sharedDatastoreResources.WaitGroup.Wait()
+			return true
+		}() {
+			return
+		}
+	}
+}
